@@ -207,10 +207,30 @@ def body(chk, db, cfgname):
                 good = True
         elif len(k) == 5 and k[3][0] == "field" and k[4][0] == "field":
             good = k[3][2] == ea_ and k[4][2] == eb_
-    if good:
-        r3.ok(site, g.loc(), "prepares both averages and forwards (A.getResult(), B.getResult())", cfgname)
-    else:
+    direct = False
+    swapped = False
+    if not calls:
+        # not forwarded: the members are assigned here
+        asg2 = {}
+        for j, n in g.walk(g.body):
+            if n["k"] == "bin" and n["op"] == "=" or (n["k"] == "call" and n["ck"] == "op" and n.get("op") == "="):
+                l = n["l"] if n["k"] == "bin" else n["args"][0]
+                r = n["r"] if n["k"] == "bin" else n["args"][1]
+                asg2[gctx.key(l)] = (gctx.key(r), j)
+        ra, rb = ("mcall", "Pomerol::EnsembleAverage::getResult", ea_), ("mcall", "Pomerol::EnsembleAverage::getResult", eb_)
+        va, vb, vf = asg2.get(fld(SU + "::ave_A")), asg2.get(fld(SU + "::ave_B")), asg2.get(fld(SU + "::SubtractDisconnected"))
+        preps = [x for x in g.calls(cname="Pomerol::EnsembleAverage::prepare")]
+        objs = {gctx.key(g.nodes[x]["obj"]) for x in preps}
+        if va and vb and vf and va[0] == ra and vb[0] == rb and vf[0] == ("lit", 1) and objs == {ea_, eb_} and all(g.cfg.dominates(g.cfg.pos1(x), g.cfg.pos1(va[1])) and g.cfg.dominates(g.cfg.pos1(x), g.cfg.pos1(vb[1])) for x in preps):
+            direct = True
+        elif va and vb and va[0] == rb and vb[0] == ra:
+            swapped = True
+    if good or direct:
+        r3.ok(site, g.loc(), "prepares both averages and %s (A.getResult(), B.getResult())" % ("forwards" if good else "stores"), cfgname)
+    elif calls or swapped:
         r3.bad(site, g.loc(), "does not forward (average of A, average of B) in this order after preparing both", cfgname)
+    else:
+        r3.unknown(site, g.loc(), "the averages are neither forwarded to the (ComplexType, ComplexType) overload nor assigned to ave_A / ave_B in a recognised form", cfgname)
     g = noarg[0]
     gctx = Ctx(g, db)
     site = SU + "::subtractDisconnected()"
